@@ -217,6 +217,19 @@ def cfgModel (gs : List (String × Option (List ModelCfg))) (g m : String) : Opt
   | some (_, some ms) => ms.find? (fun c => c.name = m)
   | _ => none
 
+/-- the statement's reading of one sweep step on a model argument: the configuration's first model `m`
+of group `g` must exist, declare `a`, and be enabled; `_` placeholders only in custom mode
+(`KeyError` for an unknown group / model / argument, `ValueError` for a disabled model) -/
+def validateArgSpec (gs : List (String × Option (List ModelCfg))) (g m a : String) (vals : List Val)
+    (custom : Bool) : Except Err Unit :=
+  match cfgModel gs g m with
+  | none => .error .key
+  | some c =>
+    if a ∈ c.args.map Prod.fst then
+      if c.enabled then (if vals.any isUnderscore && !custom then .error .value else .ok ())
+      else .error .value
+    else .error .key
+
 /-! ### `eval_entry`: the literal conversion
 
 `eval_entry(text)` = `ast.literal_eval(text)` if that succeeds, otherwise the text itself as a string
